@@ -157,6 +157,9 @@ func (c12) Gen(rng *rand.Rand, tier string, k int) *Case {
 		if many {
 			a.SrcN, a.TgtN = rng.Intn(3), rng.Intn(2)
 		}
+		if a.SrcN >= 3 && rng.Intn(8) == 0 {
+			a.SrcSwap = 1 + rng.Intn(a.SrcN-2) // the source is not in date order (its latest snapshot is still its last)
+		}
 		c.Assets = append(c.Assets, a)
 	}
 	c.Workers = []int{1, 1, 2, 3, 4, 8}[rng.Intn(6)]
@@ -204,6 +207,19 @@ func (c12) Gen(rng *rand.Rand, tier string, k int) *Case {
 				}
 			}
 			c.Faults = append(keep, FaultSpec{Kind: kind, Name: "/" + c.Assets[i].Name + ".csv", At: rng.Intn([]int{20, 60, 150}[rng.Intn(3)]), N: 1})
+		}
+	}
+	// an asset whose source is not in date order is synchronised without faults: resuming after a
+	// partial append goes by the target's last date, which presupposes date order
+	for _, a := range c.Assets {
+		if a.SrcSwap > 0 {
+			keep := c.Faults[:0:0]
+			for _, f := range c.Faults {
+				if f.Name != a.Name && f.Name != "/"+a.Name+".csv" {
+					keep = append(keep, f)
+				}
+			}
+			c.Faults = keep
 		}
 	}
 	c.Policy = genPolicy(rng)
@@ -311,7 +327,7 @@ func readAll(repo asset.Repository, name string) ([]*asset.Snapshot, bool) {
 	}
 	var got []*asset.Snapshot
 	for {
-		simrt.Yield(-1, "cons-recv")
+		consYield()
 		v, ok := <-ch
 		if !ok {
 			return got, true
@@ -389,6 +405,11 @@ func (c12) Run(c *Case, st *Stats) []Violation {
 			for _, a := range c.Assets {
 				if !a.SrcAbsent {
 					srcData[a.Name] = syncSnapshots(base, a.SrcFrom, a.SrcN, a.Seed, 1)
+					if k := a.SrcSwap; k > 0 && k < len(srcData[a.Name])-1 {
+						d := srcData[a.Name]
+						d[k-1], d[k] = d[k], d[k-1]
+						st.Faults["source-not-in-date-order"]++
+					}
 					if err := fill(src, a.Name, srcData[a.Name]); err != nil {
 						add("setup-error", "-", err.Error())
 						return
